@@ -103,6 +103,9 @@ pub fn password() -> impl Strategy<Value = BytesSpec> {
         1 => Just(BytesSpec::empty()),
         8 => (1u32..=64, fill(), any::<u32>()).prop_map(|(len, fill, seed)| BytesSpec { len, fill, seed }),
         1 => (65u32..=300, fill(), any::<u32>()).prop_map(|(len, fill, seed)| BytesSpec { len, fill, seed }),
+        // lengths at the block / digest sizes of the MACs and KDFs that consume a password or key
+        // (HMAC-SHA384 block 128 and digest 48, BLAKE2b key 64 / block 128, SHA-256/512 sizes)
+        2 => (prop::sample::select(vec![31u32, 32, 33, 47, 48, 49, 63, 64, 65, 95, 96, 97, 111, 112, 127, 128, 129, 255, 256, 257]), fill(), any::<u32>()).prop_map(|(len, fill, seed)| BytesSpec { len, fill, seed }),
     ]
 }
 
